@@ -17,7 +17,9 @@ RULE = ('S3: exhaustive layout construction (channels -1..257 x mapping families
         'placed on the int16 saturation boundary (sum = 32766..32769, -32770..-32767), and every impulse round trip. '
         'S4: RFC 7845/8486 layouts for every family x channels 1..255; real surround / multistream / projection encoders '
         '(all rates, 2.5..120 ms, float and int16, CBR/VBR, loss) -> packet structure -> real multistream decoder against '
-        'stand-alone decoders bit for bit; unit impulses through mixing and demixing matrices of all orders. '
+        'stand-alone decoders bit for bit; the same with 40..120 ms multi-frame packets, unconstrained VBR at 80..135 kb/s per '
+        'stream and loud/quiet 20 ms blocks (sub-frame sizes on both sides of 252 bytes; the number of such packets is printed); '
+        'unit impulses through mixing and demixing matrices of all orders. '
         'A case is distinct by its (op, outcome kind) class (S3) or its (encoder kind, family, channels, rate, frame size, API) tuple (S4)')
 NOT_COVERED = [
     'the ENCODER side of the packet structure (output = serialize(true) p1 ++ ... ++ serialize(false) pn) is not a theorem: it '
@@ -247,6 +249,11 @@ def search(ctx):
     n = 2500 if ctx.quick else 60000
     seed = ctx.seed + 400
     eat(_run([h, 'search', str(seed), str(n)]), 'layout-search', 'harness: c10_layout search %d %d' % (seed, n))
+    # (d) directed: multi-frame packets through the repacketizer path (40..120 ms, unconstrained VBR, 80..135 kb/s per stream,
+    #     loud/quiet 20 ms blocks so that the sub-frame sizes of a stream straddle the 251/252-byte length-coding boundary)
+    n = 300 if ctx.quick else 6000
+    seed = ctx.seed + 500
+    eat(_run([h, 'straddle', str(seed), str(n)]), 'layout-straddle', 'harness: c10_layout straddle %d %d' % (seed, n))
     return {'cases': cases, 'distinct': len(distinct),
             'oracle': 'RFC 7845/8486 layout per family and channel count (accepted by both validators, rejected elsewhere); every packet of '
                       'the surround/multistream/projection encoders splits into nb_streams self-delimited packets (last standard) of the '
